@@ -15,7 +15,7 @@ import (
 func init() {
 	register("C18", PropCheck{
 		Title:      "The selected language reaches every lookup and survives the session",
-		Explain:    "Plumbing of the language selection, decided on every path: (R1) in engine, vm, render and resource every call that takes a context.Context is given a context derived from the caller's own context parameter through context.WithValue only (never Background/TODO or a stored context); (R2) the context handed to the VM by Exec and init, and to the renderer by Flush, carries the language: it derives from WithValue(ctx, \"Language\", *State.Language), the call into VM/renderer is only reached through that injection or the Language==nil edge, and the injection happens after the state has been established (after init in Exec, after prepare in init) - so a session resumed from a persister gets its language on its first request; in Vm.Run the context is re-injected on the 'LANG flag was set' edge and flows into every handler call; (R3) every writer of the language context value uses key \"Language\" with a lang.Language value (not a pointer) and every reader asserts exactly that type under that key; (R4) State.Language and the fields of lang.Language are part of the persisted snapshot; (R5) DbBase.ToKey produces the translation key on every path on which a language is selected (context or explicit), so translated entries are looked up whenever they may exist, and the default key always; (R6) State.Language is only set non-nil behind the success edge of LanguageFromCode.",
+		Explain:    "Plumbing of the language selection, decided on every path: (R1) in engine, vm, render and resource every call that takes a context.Context is given a context derived from the caller's own context parameter through context.WithValue only (never Background/TODO or a stored context); (R2) the context handed to the VM by Exec and init, and to the renderer by Flush, carries the language: it derives from WithValue(ctx, \"Language\", *State.Language), the call into VM/renderer is only reached through that injection or the Language==nil edge, and the injection happens after the state has been established (after init in Exec, after prepare in init) - so a session resumed from a persister gets its language on its first request; in Vm.Run the context is re-injected on the 'LANG flag was set' edge and flows into every handler call; (R3) every writer of the language context value uses key \"Language\" with a lang.Language value (not a pointer) and every reader asserts exactly that type under that key; (R4) State.Language and the fields of lang.Language are part of the persisted snapshot; (R5) DbBase.ToKey produces the translation key on every path on which a language is selected (context or explicit), so translated entries are looked up whenever they may exist, and the default key always; (R6) State.Language is only set non-nil behind the success edge of LanguageFromCode; (R9) after every successful call of external code the LANG flag is tested and State.SetLanguage applied on its set edge - inside the invoker (today) or, if not there, after the invoker call in every one of its callers (added after seeded change C18-F, which moved the update into the LOAD handler and left RELOAD without it).",
 		NotDecided: "that third-party Resource implementations use the context language; gettext catalog contents; the translation-then-default lookup order inside each backend is C10 R3.",
 		Run:        runC18,
 	})
@@ -149,6 +149,7 @@ func runC18(w *core.World, r *core.Report) {
 	r.Rule("R6", "State.Language set non-nil only behind LanguageFromCode success")
 	r.Rule("R7", "Vm.Run resets FLAG_LANG before every instruction, unconditionally (documented lifetime: next instruction)")
 	r.Rule("R8", "language-scoped lookups are not memoised in the shared Resource objects")
+	r.Rule("R9", "after every successful call of external code the LANG flag is tested and State.SetLanguage applied on its set edge (in the invoker or in each of its callers)")
 
 	// ---- R1 -----------------------------------------------------------------------------------
 	n1 := 0
@@ -192,84 +193,7 @@ func runC18(w *core.World, r *core.Report) {
 	r.Floor("R1", "context-taking call sites", n1, 60)
 
 	// ---- R2 -----------------------------------------------------------------------------------
-	type site struct {
-		fnF           *ssa.Function
-		fn            string // label of the function
-		afterF, tgtF  *ssa.Function
-		after, target string
-	}
-	roles := resolveEngineRoles(w)
-	var vmRender *ssa.Function = w.Func("vm", "(*Vm).Render")
-	for _, st := range []site{
-		{roles.Exec, "(*DefaultEngine).Exec", roles.Init, roles.ExecBackend, "engine init", "engine exec backend"},
-		{roles.Init, "engine init", roles.Prepare, roles.PreVmHook, "engine prepare", "engine pre-VM hook"},
-		{roles.Flush, "(*DefaultEngine).Flush", nil, vmRender, "", "vm.(*Vm).Render"},
-	} {
-		fn := st.fnF
-		if fn == nil || st.tgtF == nil || (st.after != "" && st.afterF == nil) {
-			r.Undecided("R2", "engine: "+st.fn+" / "+st.after+" / "+st.target, token.NoPos, "role not resolved")
-			continue
-		}
-		r.Touch(core.QName(fn))
-		targets := callsToSet(fn, map[*ssa.Function]bool{st.tgtF: true})
-		if len(targets) == 0 {
-			r.Undecided("R2", "engine: "+st.fn+": call of "+st.target, fn.Pos(), "call not found")
-			continue
-		}
-		for _, tc := range targets {
-			var ctxArg ssa.Value
-			for _, a := range core.CallArgs(tc) {
-				if isCtxType(a.Type()) {
-					ctxArg = a
-				}
-			}
-			key := fmt.Sprintf("engine: %s: language on the context of %s", st.fn, st.target)
-			inj := langInjections(ctxArg, 0, map[ssa.Value]bool{})
-			if len(inj) == 0 {
-				r.Bad("R2", key, tc.Pos(), "the context handed on never receives the \"Language\" value: lookups of this request ignore the session's language")
-				continue
-			}
-			// reached only through an injection or the Language == nil edge
-			cut := core.NewCut()
-			for _, ic := range inj {
-				cut.AddInstr(ic)
-			}
-			for _, b := range fn.Blocks {
-				for _, in := range b.Instrs {
-					if bo, ok := in.(*ssa.BinOp); ok && (bo.Op == token.EQL || bo.Op == token.NEQ) && core.IsNilConst(bo.Y) {
-						if _, f, ok := core.LoadedField(bo.X); ok && f == "Language" {
-							cut.AddEdge(core.EdgesWhere(bo, bo.Op == token.EQL)...)
-						}
-					}
-				}
-			}
-			// an injecting helper tests Language itself
-			in, path := core.Reach(core.Entry(fn), core.IsInstr(tc.(ssa.Instruction)), cut)
-			bad := ""
-			if in != nil {
-				bad = "reachable without the injection although a language may be selected: " + w.PathString(path)
-			}
-			// after the state is established
-			if st.after != "" && bad == "" {
-				est := callsToSet(fn, map[*ssa.Function]bool{st.afterF: true})
-				if len(est) == 0 {
-					bad = "cannot find the call of " + st.after + " that establishes the state"
-				}
-				for _, ic := range inj {
-					domd := false
-					for _, e := range est {
-						if core.InstrDominates(e.(ssa.Instruction), ic) {
-							domd = true
-						}
-					}
-					if !domd {
-						bad = fmt.Sprintf("the language is read for injection at %s before %s has established (loaded) the session state: a session resumed from a persister runs its first request without its language", w.Pos(ic.Pos()), st.after)
-					}
-				}
-			}
-			r.Check(bad == "", "R2", key, tc.Pos(), fmt.Sprintf("injected at %d site(s), after the state is established", len(inj)), bad)
-		}
-	}
+	checkLanguageInjection(w, r, "R2")
 	// Vm.Run re-injection
 	if run := anchor(w, r, "vm", "(*Vm).Run"); run != nil {
 		fLang, ok := constOf(w, r, "state", "FLAG_LANG")
@@ -334,6 +258,93 @@ func runC18(w *core.World, r *core.Report) {
 	}
 	// ---- R8 -----------------------------------------------------------------------------------
 	checkResourceStateless(w, r, "R8")
+	// ---- R9 -----------------------------------------------------------------------------------
+	if fLang, ok := constOf(w, r, "state", "FLAG_LANG"); ok {
+		// helpers of package vm that apply the language themselves on every path
+		updaters := map[*ssa.Function]bool{}
+		for _, g := range w.FuncsIn("vm") {
+			cs := core.CallsTo(g, "state.(*State).SetLanguage")
+			if len(cs) == 0 || len(g.Blocks) == 0 {
+				continue
+			}
+			cut := core.NewCut()
+			for _, c := range cs {
+				cut.AddInstr(c.(ssa.Instruction))
+			}
+			unset, _ := flagTestEdges(g, fLang, false)
+			cut.AddEdge(unset...)
+			if hit, _ := core.Reach(core.Entry(g), core.IsReturn, cut); hit == nil {
+				updaters[g] = true
+			}
+		}
+		langCut := func(fn *ssa.Function) *core.Cut {
+			cut := core.NewCut()
+			for _, c := range core.CallsTo(fn, "state.(*State).SetLanguage") {
+				cut.AddInstr(c.(ssa.Instruction))
+			}
+			for _, c := range core.Calls(fn) {
+				if g := core.StaticCallee(c); g != nil && g != fn && updaters[g] {
+					if _, isDefer := c.(*ssa.Defer); !isDefer {
+						cut.AddInstr(c.(ssa.Instruction))
+					}
+				}
+			}
+			n := len(cut.Instrs)
+			unset, _ := flagTestEdges(fn, fLang, false)
+			cut.AddEdge(unset...)
+			if n == 0 {
+				return nil
+			}
+			return cut
+		}
+		n9 := 0
+		for inv := range externalInvokers(w) {
+			// the call of the external function value
+			var ext []ssa.CallInstruction
+			for _, c := range core.Calls(inv) {
+				if core.StaticCallee(c) == nil && !c.Common().IsInvoke() && strings.Contains(c.Common().Value.Type().String(), "EntryFunc") {
+					ext = append(ext, c)
+				}
+			}
+			inInvoker := false
+			if cut := langCut(inv); cut != nil && len(ext) > 0 {
+				inInvoker = true
+				for _, c := range ext {
+					if hit, _ := core.Reach(core.After(c.(ssa.Instruction)), isSuccessReturnPred(inv), cut); hit != nil {
+						inInvoker = false
+					}
+				}
+			}
+			if inInvoker {
+				n9++
+				r.OK("R9", "external-code invoker: language update after the call", inv.Pos(), "LANG test and SetLanguage on every success path after the external call")
+				continue
+			}
+			// otherwise every caller must do it after the call
+			sites := 0
+			bad := ""
+			var badPos token.Pos
+			for _, caller := range w.FuncsIn("vm") {
+				for _, c := range callsToSet(caller, map[*ssa.Function]bool{inv: true}) {
+					sites++
+					cut := langCut(caller)
+					if cut == nil {
+						bad = fmt.Sprintf("%s calls the invoker at %s and never applies the language", label(roleLabels(w, r), caller), w.Pos(c.Pos()))
+						badPos = c.Pos()
+						continue
+					}
+					if hit, path := core.Reach(core.After(c.(ssa.Instruction)), isSuccessReturnPred(caller), cut); hit != nil {
+						bad = fmt.Sprintf("%s can return after the invoker without the language update: %s", label(roleLabels(w, r), caller), w.PathString(path))
+						badPos = c.Pos()
+					}
+				}
+			}
+			n9++
+			r.Check(bad == "" && sites > 0, "R9", "external-code invoker: language update after the call", badPos, fmt.Sprintf("applied by all %d callers", sites),
+				"external code that raises LANG and returns a language code does not change the session's language on some path (for instance through RELOAD but not LOAD): "+bad)
+		}
+		r.Floor("R9", "external-code invokers", n9, 1)
+	}
 
 	// ---- R3 -----------------------------------------------------------------------------------
 	nw, nr := 0, 0
@@ -475,4 +486,89 @@ func runC18(w *core.World, r *core.Report) {
 		}
 	}
 	r.Floor("R6", "non-nil stores to State.Language", n6, 1)
+}
+
+// checkLanguageInjection (C18 R2, C07 R6): the context handed to the VM by Exec and init, and to
+// the renderer by Flush, carries the session's language, and the injection reads the language only
+// after the state has been established (after init in Exec, after prepare in init) - a session
+// resumed from a persister gets its language on its first request, exactly like a long-lived one.
+func checkLanguageInjection(w *core.World, r *core.Report, rule string) {
+	type site struct {
+		fnF           *ssa.Function
+		fn            string // label of the function
+		afterF, tgtF  *ssa.Function
+		after, target string
+	}
+	roles := resolveEngineRoles(w)
+	var vmRender *ssa.Function = w.Func("vm", "(*Vm).Render")
+	for _, st := range []site{
+		{roles.Exec, "(*DefaultEngine).Exec", roles.Init, roles.ExecBackend, "engine init", "engine exec backend"},
+		{roles.Init, "engine init", roles.Prepare, roles.PreVmHook, "engine prepare", "engine pre-VM hook"},
+		{roles.Flush, "(*DefaultEngine).Flush", nil, vmRender, "", "vm.(*Vm).Render"},
+	} {
+		fn := st.fnF
+		if fn == nil || st.tgtF == nil || (st.after != "" && st.afterF == nil) {
+			r.Undecided(rule, "engine: "+st.fn+" / "+st.after+" / "+st.target, token.NoPos, "role not resolved")
+			continue
+		}
+		r.Touch(core.QName(fn))
+		targets := callsToSet(fn, map[*ssa.Function]bool{st.tgtF: true})
+		if len(targets) == 0 {
+			r.Undecided(rule, "engine: "+st.fn+": call of "+st.target, fn.Pos(), "call not found")
+			continue
+		}
+		for _, tc := range targets {
+			var ctxArg ssa.Value
+			for _, a := range core.CallArgs(tc) {
+				if isCtxType(a.Type()) {
+					ctxArg = a
+				}
+			}
+			key := fmt.Sprintf("engine: %s: language on the context of %s", st.fn, st.target)
+			inj := langInjections(ctxArg, 0, map[ssa.Value]bool{})
+			if len(inj) == 0 {
+				r.Bad(rule, key, tc.Pos(), "the context handed on never receives the \"Language\" value: lookups of this request ignore the session's language")
+				continue
+			}
+			// reached only through an injection or the Language == nil edge
+			cut := core.NewCut()
+			for _, ic := range inj {
+				cut.AddInstr(ic)
+			}
+			for _, b := range fn.Blocks {
+				for _, in := range b.Instrs {
+					if bo, ok := in.(*ssa.BinOp); ok && (bo.Op == token.EQL || bo.Op == token.NEQ) && core.IsNilConst(bo.Y) {
+						if _, f, ok := core.LoadedField(bo.X); ok && f == "Language" {
+							cut.AddEdge(core.EdgesWhere(bo, bo.Op == token.EQL)...)
+						}
+					}
+				}
+			}
+			// an injecting helper tests Language itself
+			in, path := core.Reach(core.Entry(fn), core.IsInstr(tc.(ssa.Instruction)), cut)
+			bad := ""
+			if in != nil {
+				bad = "reachable without the injection although a language may be selected: " + w.PathString(path)
+			}
+			// after the state is established
+			if st.after != "" && bad == "" {
+				est := callsToSet(fn, map[*ssa.Function]bool{st.afterF: true})
+				if len(est) == 0 {
+					bad = "cannot find the call of " + st.after + " that establishes the state"
+				}
+				for _, ic := range inj {
+					domd := false
+					for _, e := range est {
+						if core.InstrDominates(e.(ssa.Instruction), ic) {
+							domd = true
+						}
+					}
+					if !domd {
+						bad = fmt.Sprintf("the language is read for injection at %s before %s has established (loaded) the session state: a session resumed from a persister runs its first request without its language", w.Pos(ic.Pos()), st.after)
+					}
+				}
+			}
+			r.Check(bad == "", rule, key, tc.Pos(), fmt.Sprintf("injected at %d site(s), after the state is established", len(inj)), bad)
+		}
+	}
 }
